@@ -597,11 +597,24 @@ func (c *Client) negotiateVersion(ctx context.Context) error {
 	if err := bi.Err(); err != nil {
 		return err
 	}
-	serverVersions := bi.ResponsePayload.(*payloads.DiscoverVersionsResponsePayload).ProtocolVersion
-	if len(serverVersions) == 0 {
+	payload, ok := bi.ResponsePayload.(*payloads.DiscoverVersionsResponsePayload)
+	if !ok {
+		return errors.New("Protocol version negotiation failed. Unexpected response payload")
+	}
+	// Adopt the highest version advertised by the server that we support too, whatever the order of the server's list.
+	var best *kmip.ProtocolVersion
+	for i, v := range payload.ProtocolVersion {
+		if !slices.Contains(c.supportedVersions, v) {
+			continue
+		}
+		if best == nil || ttlv.CompareVersions(v, *best) > 0 {
+			best = &payload.ProtocolVersion[i]
+		}
+	}
+	if best == nil {
 		return errors.New("Protocol version negotiation failed. No common version found")
 	}
-	c.version = &serverVersions[0]
+	c.version = best
 	return nil
 }
 
